@@ -334,7 +334,8 @@ pub fn one_scan(case: u64, rep: &mut Report, inp: &ScanInput, arm: Arm, t: f32, 
     let wit = || inp.witness(arm, t, b);
     let (hits, overrun) = match res {
         Err(p) => {
-            let wraps = generic_family(arm) && p.contains("attempt to add with overflow") && inp.presat.iter().any(|&s| s > 255);
+            // (the kernel also sums the cells of the padding positions: the panic needs no valid window above 255)
+            let wraps = generic_family(arm) && p.contains("attempt to add with overflow") && panic_site(&p).ends_with("src/pli/mod.rs");
             let kind = if wraps { "c02.generic_u8_wraps".to_string() } else { format!("c02.panic:{}", panic_site(&p)) };
             rep.violate(&kind, case, format!("panic while scanning: {}", p), wit());
             return;
